@@ -86,6 +86,7 @@ def _alphabet() -> Dict[str, Dict[str, Any]]:
     op("rotate_half", "rotate_half", "torch.cat([-{h}[..., D // 2:], {h}[..., : D // 2]], dim=-1)", lambda h, m, i: ((h,), {}))
     op("stack_mean", "stack_mean", "torch.stack([{h}, {h} * 0.5], dim=0).sum(0)", lambda h, m, i: ((h,), {}))
     op("masked", "masked", "{h} * ({h} > 0).to({h}.dtype)", lambda h, m, i: ((h,), {}))
+    op("cmp_two", "cmp_two", "{h} * ({h} > torch.tanh({h})).to({h}.dtype)", lambda h, m, i: ((h,), {}))
     op("index_rows", "index_rows", "{h}[:, torch.arange(S - 1, -1, -1)]", lambda h, m, i: ((h,), {}))
     op("with_zeros", "with_zeros", "{h} * self.zmask{i}", lambda h, m, i: ((h, g(m, "zmask", i)), {}),
        ["self.register_buffer('zmask{i}', (torch.arange(D) % 3 != 0).float())"])
@@ -267,6 +268,7 @@ class Semantics:
             "rotate_half": lambda h: torch.cat([-h[..., D // 2:], h[..., : D // 2]], dim=-1),
             "stack_mean": lambda h: torch.stack([h, h * 0.5], dim=0).sum(0),
             "masked": lambda h: h * (h > 0).to(h.dtype),
+            "cmp_two": lambda h: h * (h > torch.tanh(h)).to(h.dtype),
             "index_rows": lambda h: h[:, torch.arange(S - 1, -1, -1)],
             "with_zeros": lambda h, z: h * z,
             "view_inplace": lambda h: (h * 2.0) + (h * 2.0)[:, 0].unsqueeze(1),
